@@ -78,8 +78,11 @@ def main(argv):
     d = os.path.join(VERIF_DIR, 'seeded', sid)
     os.makedirs(d, exist_ok=True)
     if os.path.realpath(src) != os.path.realpath(d):
-        shutil.copy(os.path.join(src, 'patch.diff'), d)
-        shutil.copy(os.path.join(src, 'demo.py'), d)
+        for fn in ('patch.diff', 'demo.py'):
+            try:
+                shutil.copy(os.path.join(src, fn), d)
+            except shutil.SameFileError:
+                pass
     prev = {}
     try:
         prev = json.load(open(os.path.join(d, 'meta.json'))).get('verified', {})
